@@ -83,12 +83,53 @@ def ev(e, env):
         if d in env:
             return env[d]
         raise Unknown(d)
+    if isinstance(e, ast.Call) and isinstance(e.func, ast.Attribute) and isinstance(e.func.value, ast.Name) \
+            and e.func.value.id == "self" and e.func.attr in env.get("__methods__", {}):
+        fn = env["__methods__"][e.func.attr]
+        if env.get("__depth__", 0) > 4:
+            raise Unknown("helper recursion too deep")
+        params = [a.arg for a in fn.args.args][1:]
+        local = dict(env)
+        local["__depth__"] = env.get("__depth__", 0) + 1
+        for pn, a in zip(params, e.args):
+            # pass-through of names: alias the callee's parameter to the caller's dotted paths
+            src = dotted(a)
+            if src:
+                for k, v in list(env.items()):
+                    if k == src or k.startswith(src + ".") or k.startswith(f"len({src}") :
+                        local[k.replace(src, pn, 1)] = v
+            else:
+                local[pn] = ev(a, env)
+        r = eval_body(fn.body, local)
+        if r is None:
+            raise Unknown(f"helper {e.func.attr} falls off")
+        return r[1]
     if isinstance(e, ast.Call) and call_name(e) == "isinstance":
         d = ast.unparse(e)
         if d in env:
             return env[d]
         raise Unknown(d)
     raise Unknown(ast.unparse(e))
+
+
+def eval_body(stmts, env):
+    """Evaluate a pure function body (assignments, ifs, returns): ('return', value) or None if it falls through."""
+    for s in stmts:
+        if isinstance(s, ast.Return):
+            return ("return", ev(s.value, env) if s.value is not None else None)
+        if isinstance(s, ast.If):
+            r = eval_body(s.body if ev(s.test, env) else s.orelse, env)
+            if r is not None:
+                return r
+        elif isinstance(s, (ast.Assign, ast.AnnAssign)):
+            run_stmts([s], env)
+        elif isinstance(s, ast.Expr) and isinstance(s.value, ast.Constant):
+            continue    # docstring
+        elif isinstance(s, ast.Pass):
+            continue
+        else:
+            raise Unknown(type(s).__name__)
+    return None
 
 
 def run_stmts(stmts, env):
